@@ -55,6 +55,10 @@ func c06Tree(c *ev.Case, big bool) []*refcodec.Node {
 			case 6:
 				nd = &refcodec.Node{Code: 9022, Flags: 0x80, Vendor: 10415}
 				gen.Value(r, nd, refcodec.Address, &gen.Opts{}, 0, nil)
+				if r.IntN(3) == 0 {
+					// family 2 carrying ::ffff:a.b.c.d (legal; its in-memory form is the IPv4 one)
+					nd.Fam, nd.B = 2, append(make([]byte, 10), 0xff, 0xff, byte(r.Uint32()), byte(r.Uint32()), byte(r.Uint32()), byte(r.Uint32()))
+				}
 			default:
 				if depth >= 3 {
 					continue
@@ -85,7 +89,9 @@ func variant(nodes []*refcodec.Node, j byte) []*refcodec.Node {
 		for k := range c.B {
 			c.B[k] ^= j*37 + 1
 		}
-		if c.Kind == refcodec.Address && gen.RiskAddress(c.Fam, c.B) {
+		if n.Kind == refcodec.Address && n.Fam == 2 && gen.IsV4Mapped(n.B) {
+			copy(c.B, n.B[:12]) // stays v4-mapped, other host bytes
+		} else if c.Kind == refcodec.Address && gen.RiskAddress(c.Fam, c.B) {
 			c.B[0] ^= 0x55
 		}
 		c.Kids = variant(n.Kids, j)
@@ -97,10 +103,12 @@ func variant(nodes []*refcodec.Node, j byte) []*refcodec.Node {
 type snapshot struct {
 	wire []byte
 	str  string
+	hdr  diam.Header
 }
 
 func snap(m *diam.Message) (s snapshot, err error) {
 	p, bad := guard(func() {
+		s.hdr = *m.Header // before anything else touches the message
 		s.wire, err = m.Serialize()
 		s.str = m.String()
 	})
@@ -142,12 +150,34 @@ func TestC06(t *testing.T) {
 			hh.HopByHop = uint32(j + 1)
 			wires = append(wires, refcodec.EncodeMessage(hh, nodes))
 		}
+		// a quarter of the histories retain a message that is not in canonical form:
+		// the padding of its last AVP is missing (accepted by the decoder)
+		noncanon := false
+		if r.IntN(4) == 0 {
+			w := wires[0]
+			cut := 0
+			for cut < 3 && len(w) > 20 && w[len(w)-1-cut] == 0 {
+				cut++
+			}
+			// only when the last AVP really ends with padding
+			recs, _, _ := refcodec.Frame(w[20:])
+			if len(recs) > 0 {
+				last := recs[len(recs)-1]
+				pad := (4 - int(last.Length)%4) % 4
+				if pad > 0 {
+					w = append([]byte(nil), w[:len(w)-pad]...)
+					w[1], w[2], w[3] = byte(len(w)>>16), byte(len(w)>>8), byte(len(w))
+					wires[0] = w
+					noncanon = true
+				}
+			}
+		}
 		mode := r.IntN(4) // 0 same reader, 1 other reader, 2 other goroutine, 3 concurrent re-reading (race oracle)
 		if rec.Race() {
 			mode = 3
 		}
 		gen.Walk(base, 0, func(n *refcodec.Node, d int) {
-			c.Class("%s/depth=%d/big=%v/mode=%d", n.Kind, d, big, mode)
+			c.Class("%s/depth=%d/big=%v/mode=%d/noncanonical=%v", n.Kind, d, big, mode, noncanon)
 		})
 		var stream []byte
 		for _, w := range wires {
@@ -164,8 +194,18 @@ func TestC06(t *testing.T) {
 			c.Fail(ev.Sig{"op": "setup"}, wires[0], nil, "snapshot: %v", err)
 			return
 		}
-		if !bytes.Equal(before.wire, wires[0]) {
+		hasMapped := false
+		gen.Walk(base, 0, func(n *refcodec.Node, d int) {
+			if n.Kind == refcodec.Address && n.Fam == 2 && gen.IsV4Mapped(n.B) {
+				hasMapped = true
+			}
+		})
+		if !hasMapped && !noncanon && !bytes.Equal(before.wire, wires[0]) {
 			c.Fail(ev.Sig{"op": "setup"}, wires[0], nil, "first message does not round-trip")
+			return
+		}
+		if int(before.hdr.MessageLength) != len(wires[0]) {
+			c.Fail(ev.Sig{"op": "retained-changed", "what": "header"}, wires[0], nil, "the header of the message just read says length %d, %d bytes were read", before.hdr.MessageLength, len(wires[0]))
 			return
 		}
 		readRest := func() error {
@@ -209,6 +249,7 @@ func TestC06(t *testing.T) {
 					default:
 					}
 					snap(m1)
+					m1.WriteTo(io.Discard) // a relay forwards the message it kept
 				}
 			}()
 			go func() {
@@ -234,6 +275,10 @@ func TestC06(t *testing.T) {
 			at := firstDiff(after.wire, before.wire)
 			c.Fail(ev.Sig{"op": "retained-changed", "what": "bytes"}, stream, map[string]any{"before": ev.Hex(before.wire), "after": ev.Hex(after.wire)},
 				"the retained message changed after %d further reads (mode %d): its serialisation differs at byte %d", k-1, mode, at)
+			return
+		}
+		if after.hdr != before.hdr {
+			c.Fail(ev.Sig{"op": "retained-changed", "what": "header"}, stream, nil, "the header of the retained message changed after further reads and writes (mode %d): %+v -> %+v", mode, before.hdr, after.hdr)
 			return
 		}
 		if after.str != before.str {
@@ -262,6 +307,12 @@ func TestC06(t *testing.T) {
 			wires = append(wires, refcodec.EncodeMessage(refcodec.Header{Version: 1, Flags: 0x80, Code: 8388000, HopByHop: uint32(j + 1), EndToEnd: 9}, nodes))
 		}
 		c.Class("conn-retain/k=%d", k)
+		mapped := false
+		gen.Walk(base, 0, func(n *refcodec.Node, d int) {
+			if n.Kind == refcodec.Address && n.Fam == 2 && gen.IsV4Mapped(n.B) {
+				mapped = true
+			}
+		})
 		mc := memnet.NewConn()
 		type kept struct {
 			m *diam.Message
@@ -289,7 +340,7 @@ func TestC06(t *testing.T) {
 		close(keptCh)
 		i := 0
 		for kp := range keptCh {
-			if !bytes.Equal(kp.s.wire, wires[i]) {
+			if !mapped && !bytes.Equal(kp.s.wire, wires[i]) {
 				c.Fail(ev.Sig{"op": "setup"}, wires[i], nil, "message %d as seen by the handler is not what was sent", i)
 				return
 			}
